@@ -429,7 +429,6 @@ func runR80(c *Ctx) {
 	}
 }
 
-
 // successPathsWithoutAction enumerates the acyclic paths of fn; for each path whose returned error (result ei,
 // phis resolved by the edge taken) is nil or a forwarded call result, it requires a block satisfying acts.
 // Returns the number of paths, of success-capable paths, and the position of an offending return ("" if none).
@@ -1798,29 +1797,45 @@ func runR106(c *Ctx) {
 	}
 	fnm := fname(fn)
 	var first, second *ssa.Call
+	// the shortcut may live in a helper of the same package (an extracted filterInverse)
+	cands := []*ssa.Function{fn}
 	eachInstr(fn, func(in ssa.Instruction) {
-		call, ok := in.(*ssa.Call)
-		if !ok || !call.Call.IsInvoke() || call.Call.Method.Name() != "Filter" || len(call.Call.Args) < 4 {
-			return
-		}
-		// comparator from an inverse table lookup?
-		cmp := call.Call.Args[1]
-		if mi, ok := cmp.(*ssa.MakeInterface); ok {
-			cmp = mi.X
-		}
-		if ex, ok := cmp.(*ssa.Extract); ok {
-			if _, isLk := ex.Tuple.(*ssa.Lookup); isLk {
-				first = call
-				return
-			}
-		}
-		// fallback: boolean index argument is a fresh NewBool
-		if bc, ok := call.Call.Args[3].(*ssa.Call); ok {
-			if callee := bc.Call.StaticCallee(); callee != nil && callee.Name() == "NewBool" {
-				second = call
+		if call, ok := in.(*ssa.Call); ok {
+			if callee := call.Call.StaticCallee(); callee != nil && callee.Pkg == fn.Pkg && callee.Blocks != nil {
+				cands = append(cands, callee)
 			}
 		}
 	})
+	for _, cand := range cands {
+		if first != nil && second != nil {
+			break
+		}
+		first, second = nil, nil
+		fn = cand
+		eachInstr(cand, func(in ssa.Instruction) {
+			call, ok := in.(*ssa.Call)
+			if !ok || !call.Call.IsInvoke() || call.Call.Method.Name() != "Filter" || len(call.Call.Args) < 4 {
+				return
+			}
+			// comparator from an inverse table lookup?
+			cmp := call.Call.Args[1]
+			if mi, ok := cmp.(*ssa.MakeInterface); ok {
+				cmp = mi.X
+			}
+			if ex, ok := cmp.(*ssa.Extract); ok {
+				if _, isLk := ex.Tuple.(*ssa.Lookup); isLk {
+					first = call
+					return
+				}
+			}
+			// fallback: boolean index argument is a fresh NewBool
+			if bc, ok := call.Call.Args[3].(*ssa.Call); ok {
+				if callee := bc.Call.StaticCallee(); callee != nil && callee.Name() == "NewBool" {
+					second = call
+				}
+			}
+		})
+	}
 	if first == nil || second == nil {
 		c.undecided(fnm+"|inverse shortcut", p.pos(fn.Pos()), "the built-in inverse call / the generic complement call was not found")
 		return
